@@ -32,7 +32,7 @@ func c01Prop(st *CaseStats, fam int) func(t *rapid.T) {
 			t.Fatalf("case %s %s:\n  %s", sc, c.Desc, d)
 		}
 		labelsExtra := []string{}
-		if fam != FamWide && rapid.Bool().Draw(t, "buildLater") {
+		if fam != FamWide && fam != FamHuge && rapid.Bool().Draw(t, "buildLater") {
 			// the segment keeps answering the same whatever is built afterwards (pooled builder state)
 			for k := rapid.IntRange(1, 2).Draw(t, "nLater"); k > 0; k-- {
 				later := GenBatch(t, sc, 5)
@@ -106,4 +106,10 @@ func TestC01ManyFields(t *testing.T) {
 	st := NewStats("C01ManyFields", c01Rule)
 	defer st.Flush()
 	rapid.Check(t, c01Prop(st, FamManyFields))
+}
+
+func TestC01Huge(t *testing.T) {
+	st := NewStats("C01Huge", c01Rule)
+	defer st.Flush()
+	rapid.Check(t, c01Prop(st, FamHuge))
 }
